@@ -5,6 +5,6 @@ From Coq Require Import extraction.ExtrOcamlBasic.
 Require Import PGM.Base.Num PGM.Model.Select PGM.Model.Ledger PGM.Model.Public PGM.Model.Region.
 Extraction Language OCaml.
 Extraction "num_model.ml" Select.em_mechanism Select.em_mst Select.em_adagrid Select.em_mwem Select.laplace_scale Select.gaussian_scale Select.softmax Select.lse_probs
-  Ledger.mst_events Ledger.mwem_events Ledger.adagrid_events Ledger.aim_events Ledger.total Ledger.cost
+  Ledger.mst_events Ledger.mwem_events Ledger.adagrid_events Ledger.aim_events Ledger.mwem_lap_events Ledger.total Ledger.cost
   Public.emd_run
   Region.hps_run Region.gbp_run Region.lbp_run.
